@@ -530,7 +530,6 @@ def gen_exhaustive(ctx, rng):
     """(a) 0/1 staircases x lock subsets x slot orders"""
     cases = []
     max_full = 5 if ctx.quick else 6
-    desc = []
     for off in (1, 0):
         for m in range(1, 7):
             full = m <= max_full and (off == 1 or m <= 4)
@@ -549,7 +548,6 @@ def gen_exhaustive(ctx, rng):
                         idle = [s for s in range(len(lk)) if not lk[s]]
                         c["rescale"] = (rng.choice(idle), rng.choice((2, 3, 1000)))
                         cases.append(c)
-            desc.append(f"off={off} m={m}: {'every' if full else 'sampled'} lock subset")
     for k in range(0, len(cases), 53 if ctx.quick else 17):
         cases[k]["cross"] = True
     return cases, max_full
@@ -678,6 +676,20 @@ def gen_weighted(ctx, rng):
             lasts = [m] * m
         W = build(1, random_valid(rng, lasts), lambda k, c: rw[k])
         cases.append({"kind": "weighted-rowconst-large", "off": 1, "W": W, "locks": [0] * (m + 1) + [1]})
+    # a row-constant block of 13..14 next to a small free block: not `equal`, the big block must take the quick
+    # branch (the row-constant test precedes the size test), never Monte-Carlo
+    for it in range(2 if q else 8):
+        big = 13 + it % 2
+        m = 2 + big
+        rw = [rng.choice(WSET) for _ in range(m)]
+        rel = [max(v, k + 1) for k, v in enumerate(sorted(rng.choice((big // 2, big)) for _ in range(big)))]
+        rows = [[rng.choice(WMILD), rng.choice(WMILD)] + [0] * big for _ in range(2)]
+        rows += [[rng.choice(WSET), rng.choice(WSET)] + [rw[k] if c < rel[k] else 0 for c in range(big)] for k in range(big)]
+        order = list(range(2, m))
+        rng.shuffle(order)
+        order.sort(key=lambda i: rel[i - 2])          # ascending `last`, random among equals: valid slot order
+        W = [[1] + [0] * (m + 1)] + [[0] + rows[i] + [0] for i in [0, 1] + order] + [[0] * (m + 2)]
+        cases.append({"kind": "weighted-rowconst-large-block", "off": 1, "W": W, "locks": [0] * (m + 1) + [1]})
     return cases, mc
 
 
@@ -993,13 +1005,18 @@ def run(ctx):
         "(witness ILL_CONDITIONED in c02.py: 9 plus ensembles, one path (1,..,1), eight paths (1000,1,..,1) -> "
         "AssertionError inside inf_retis; 8 ensembles -> error 5.8e-7); that is rounding, outside the model",
         "the Python oracle (exact integer subset-DP permanents) is compared token-for-token with the Lean "
-        "specification probMatrix on every case with an idle block <= 7",
+        "specification probMatrix on every case with an idle block <= 4 and on a capped sample of 5..7; for idle blocks "
+        "5..8 the Lean permC of the idle block and of one random minor is compared with the oracle's integers",
     ]
 
 
 def replay(ctx, obj):
     """re-run one recorded failing input on the current implementation: 1 = still failing"""
     r = obj.get("replay", obj)
+    if "W" not in r and "arg" not in r:
+        # a `no-failing-input-found` record (broken proof obligation / correspondence): nothing to re-run on the code
+        print(json.dumps(obj, indent=1, default=str)[:4000])
+        return 1
     with warnings.catch_warnings(), np.errstate(all="ignore"):
         warnings.simplefilter("ignore")
         code = Code()
@@ -1044,10 +1061,7 @@ def common_ctx_stub():
 
 
 def _replay_sub(c, code, kind, payload):
-    class OneShot:
-        def __init__(self):
-            self.first = True
-    # reuse sub_functions' predicate part on exactly one case
+    """the predicates of sub_functions() on exactly one recorded case"""
     st = code.st
     cls = type(st)
     rep = {"kind": "sub:" + kind, "arg": payload}
